@@ -1,6 +1,7 @@
 package main
 
 import (
+	"bytes"
 	"crypto/tls"
 	"io"
 	"net"
@@ -89,9 +90,37 @@ func (o *origin) handle(w http.ResponseWriter, r *http.Request) {
 			w.WriteHeader(401)
 			w.Write([]byte("challenge"))
 		default:
+			fb := []byte("try again")
+			if n, err := strconv.Atoi(r.URL.Query().Get("fb")); err == nil {
+				fb = bytes.Repeat([]byte("F"), n)
+			}
+			w.Header().Set("Content-Length", strconv.Itoa(len(fb)))
 			w.WriteHeader(503)
-			w.Write([]byte("try again"))
+			w.Write(fb)
 		}
+		return
+	}
+	if hops, _ := strconv.Atoi(r.URL.Query().Get("hops")); hops > 0 {
+		// a redirect hop with a body of its own (the usual "Moved" page), to the same URL with one hop less
+		q := r.URL.Query()
+		q.Set("hops", strconv.Itoa(hops-1))
+		rb, _ := strconv.Atoi(q.Get("rb"))
+		st, _ := strconv.Atoi(q.Get("rs"))
+		if st == 0 {
+			st = 302
+		}
+		w.Header().Set("Location", "/c17?"+q.Encode())
+		w.Header().Set("Content-Type", "text/html")
+		if q.Get("rcl") != "0" {
+			w.Header().Set("Content-Length", strconv.Itoa(rb))
+		}
+		w.WriteHeader(st)
+		if q.Get("rcl") == "0" {
+			if f, ok := w.(http.Flusher); ok {
+				f.Flush()
+			}
+		}
+		w.Write(bytes.Repeat([]byte("R"), rb))
 		return
 	}
 	if isDL {
